@@ -297,6 +297,8 @@ func runC18(c *Ctx) {
 	c.inflightRemovalRule("R18.6")
 	c.rule("R18.7", "calls on a closed or closing client end: a request is re-sent only on the wire's temporary-connection code, never on a local send error")
 	c.retryGateRule("R18.7")
+	c.rule("R18.8", "the exit cleanup takes the sink-table lock, which the frame executor holds while it hands a value to a stream's buffering goroutine: that goroutine always keeps receiving (a lagging consumer cannot make the closer wait for ever)")
+	c.decouplingRule("R18.8")
 }
 
 // isLoopCtxRoot: v is the context returned by the context.WithCancel in the connection loop whose cancel is deferred there.
